@@ -298,7 +298,7 @@ class St:
 class TlWorld(HistoryWorld):
     name = 'TL'
     chunk = 4
-    legs = {'quick': [('frames', 900), ('blockid', 600)], 'thorough': [('frames', 60000), ('blockid', 20000)]}
+    legs = {'quick': [('frames', 640), ('blockid', 600)], 'thorough': [('frames', 60000), ('blockid', 20000)]}
     budget = {'quick': 110, 'thorough': 1500}
     real_code = ['pytoniq_core.tl.generator (TlGenerator.generate/from_file, TlRegistrator.register/get_id, split, TlSchemas.serialize/serialize_field/deserialize)',
                  'pytoniq_core.tl.block (BlockId, BlockIdExt)']
